@@ -294,6 +294,8 @@ pub use light::verif_write_i64;
 #[cfg(feature = "verif-hooks")]
 #[doc(hidden)]
 pub use scalar::verif_needs_explicit_float_tag;
+#[cfg(feature = "verif-hooks")]
+pub use light::verif_emit_hooks as light_verif_emit_hooks;
 
 #[cfg(test)]
 mod tests {
